@@ -202,3 +202,42 @@ Proof.
               Hwf HR MI G _).
     vm_compute. reflexivity.
 Qed.
+
+(* Fragment 3 (fragment 2 + closures as values: lambda expressions in any position capturing
+   variables of enclosing lambdas, application of closures, named procedures by
+   (define f (lambda ...)), recursion through the global), under exactly the premises of
+   C01_eval_fragment3, for a reference value that is a datum or a builtin procedure *)
+From MW Require Import Proofs.Closures3 Proofs.EvalFragment3.
+Theorem C06_fragment3_no_panic :
+  forall (ob : N -> M vcell) (bsem : N -> list rval -> option rval),
+  (forall b, builtin_ok ob bsem b) -> (forall b, builtin_envs ob bsem b) ->
+  forall e rho b rho' s,
+  wf3 e [] -> ref_eval3 bsem [] [] rho e (R3Base b) rho' -> minv s -> genv_rel3 rho s ->
+  transform_expr TRANSFORM_FUEL s (cell_of3 e) = Ok (cell_of3 e) ->
+  forall fuel k, eval ob fuel (cell_of3 e) s <> RPanic k.
+Proof. exact fragment3_no_panic. Qed.
+Print Assumptions C06_fragment3_no_panic.
+
+Theorem C06_fragment3_outcome :
+  forall (ob : N -> M vcell) (bsem : N -> list rval -> option rval),
+  (forall b, builtin_ok ob bsem b) -> (forall b, builtin_envs ob bsem b) ->
+  forall e rho b rho' s,
+  wf3 e [] -> ref_eval3 bsem [] [] rho e (R3Base b) rho' -> minv s -> genv_rel3 rho s ->
+  transform_expr TRANSFORM_FUEL s (cell_of3 e) = Ok (cell_of3 e) ->
+  forall fuel, eval ob fuel (cell_of3 e) s = RNoFuel \/
+               exists s', eval ob fuel (cell_of3 e) s = ROk (Done (rcell b)) s'.
+Proof. exact fragment3_outcome. Qed.
+Print Assumptions C06_fragment3_outcome.
+
+(* non-vacuity: (((lambda (x) (lambda (y) (if y x 'no))) '(1 2)) #t) on the empty machine *)
+Example C06_fragment3_no_panic_example :
+  (forall fuel k, eval Builtins.other_builtin fuel (cell_of3 ex4_e) (vm_empty 8192) <> RPanic k) /\
+  match eval Builtins.other_builtin 200 (cell_of3 ex4_e) (vm_empty 8192) with
+  | ROk (Done c) _ => c = ex2_list | _ => False end.
+Proof.
+  split; [|vm_compute; reflexivity].
+  destruct ex4_hypotheses as (Hwf & MI & G & HR).
+  refine (C06_fragment3_no_panic Builtins.other_builtin bsem_not builtin_ok_not builtin_envs_not ex4_e _ _ _ _
+            Hwf HR MI G _).
+  vm_compute. reflexivity.
+Qed.
